@@ -119,6 +119,9 @@ func TestReplay_wal_model(t *testing.T) {
 		if !thorough && pi%11 != 0 && len(prog) == 3 {
 			continue // quick tier: every eleventh program of full length
 		}
+		if thorough && pi%9 != 0 && len(prog) == 4 {
+			continue // thorough tier: all programs up to length 3, every ninth of length 4
+		}
 		for _, limit := range limits {
 			for failAt := -1; failAt < 3; failAt++ { // -1: no injected fault; k: the k-th writer creation after the first fails
 				if failAt >= 0 && (limit == 1<<20 || !thorough && pi%5 != 0) {
